@@ -129,7 +129,13 @@ class Threads(EngineBase):
                 elif k_ < 0.7:
                     attrs = None
                 elif k_ < 0.8:
-                    attrs = ["name", "bogus_attr"]
+                    # one unknown name among valid ones (a set is walked
+                    # in hash order: the unknown one may come last)
+                    attrs = sorted(rng.sample(ALL_GETTERS, rng.randrange(
+                        1, 6))) + [rng.choice(
+                            ["bogus_attr", "nam", "Name", "cpu_time", "pidd",
+                             "x", "zz_top", "memory", "open_file", "io"])
+                        + rng.choice(["", "", "_", "2"])]
                 elif k_ < 0.9:
                     attrs = "name"             # not a collection
                 else:
